@@ -47,7 +47,7 @@ func init() {
 		Require: []string{"A1_helper_calls", "A1_must_reject_checked", "A1_must_allow_checked", "A1_types_covered", "A1_window_rejects", "A1_restricted_rejects", "A1_withdraw_allowed", "A1_return_allowed",
 			"A2_ctx_calls", "A2_ctx_policy_stage_reached", "A2_ctx_policy_rejects", "A2_ctx_passed_policy", "A2_real_utxo_ctx_calls", "A2_pool_submissions", "A2_block_submissions", "A2_pool_policy_rejects", "A2_block_policy_rejects",
 			"A2_prefreeze_passed_policy", "A2_honest_accepted", "A2_history_scans", "A2_x_utxos_mined",
-			"B_configs_run", "B_mainnet_identity_checked", "B_other_identity_checked", "B_mainnet_constants_held", "B_other_disabled_held", "B_mainnet_identity_with_height_override"},
+			"B_configs_run", "B_mainnet_identity_checked", "B_other_identity_checked", "B_mainnet_constants_held", "B_other_disabled_held", "B_mainnet_identity_with_height_override", "B_own_magic_unknown_name_checked", "B_own_magic_disabled_held"},
 		Assumptions: []string{
 			"statement reading: a supported-version side-chain withdrawal may mix X and other inputs (no verdict either way); 'spending only cross-chain UTXOs' binds the legacy deposit return",
 			"threshold pairs with freeze > restriction are outside the statement (SetupConfig can never produce them, checked in B): observed, not judged",
